@@ -339,18 +339,20 @@ def transform_at(kind, p):
 
 
 def transforms_agree(shape, k1, k2):
-    """Do two whole-string transforms give the same result on every string of the shape?  Returns (bool, witness)."""
+    """Do two whole-string transform sequences (tuples of kinds, applied left to right) give the same result on every
+    string of the shape?  Returns (bool, witness)."""
+    a1, a2 = compose_transform(tuple(k1)), compose_transform(tuple(k2))
     for n, lst in shape.cells.items():
         if n == LONG:
-            if lst and k1 != k2:
+            if lst and tuple(k1) != tuple(k2):
                 return False, 'long strings'
             continue
         for c in lst:
             for p, m in enumerate(c):
-                f1, f2 = transform_at(k1, p), transform_at(k2, p)
+                f1, f2 = a1(p), a2(p)
                 for b in bytes_of(m):
                     if f1(b) != f2(b):
-                        return False, 'len %d: byte %r at position %d: %s gives %r, %s gives %r' % (n, chr(b), p, k1, chr(f1(b)), k2, chr(f2(b)))
+                        return False, 'len %d: byte %r at position %d: %s gives %r, %s gives %r' % (n, chr(b), p, '+'.join(k1), chr(f1(b)), '+'.join(k2), chr(f2(b)))
     return True, ''
 
 
